@@ -2,7 +2,7 @@
    sumbool map to OCaml's; N, Z, positive, nat stay the extracted inductive types. *)
 From Coq Require Import Extraction ExtrOcamlBasic.
 From Coq Require Import ZArith NArith List.
-From Lithium Require Import PyBase TcRecord Util Testcase Driver Minimize PyLines Markers Splitters SplitJs SplitAttrs StatusTypes Status Pairs Interest TempDir.
+From Lithium Require Import PyBase TcRecord Util Testcase Driver Minimize PyLines Markers Splitters SplitJs SplitAttrs StatusTypes Status Pairs Interest TempDir Cli Collapse.
 Extraction Language OCaml.
 Extraction "model.ml"
   Util.divide_rounding_up Util.is_power_of_two Util.largest_power_of_two_smaller_than
@@ -13,4 +13,6 @@ Extraction "model.ml"
   Splitters.DEFAULT_CUT_AFTER Splitters.DEFAULT_CUT_BEFORE SplitJs.load_jsstr SplitAttrs.load_attrs
   Pairs.pairs Interest.outputs_mem Interest.outputs_file Interest.diff_mem Interest.diff_file Interest.repeat_loop
   TempDir.create_temp_dir TempDir.run_sched TempDir.results TempDir.proc0
+  Splitters.split_line Splitters.split_char Splitters.split_symbol SplitJs.split_jsstr SplitAttrs.split_attrs
+  Collapse.collapse_brace Collapse.collapse Cli.process_args Cli.early_table Cli.old_early_table
   Status.classify Status.reported_code Status.crashes_verdict Status.hangs_verdict Minimize.minimize Minimize.no_post.
